@@ -25,6 +25,7 @@ def run(prog, chk):
         "each glyph is drawn exactly once, directly into its charstring pen, in glyph-order (R01.5)",
         "glyph geometry is not rounded inside the pre-processing filters or the decomposition helper: coordinates are rounded once, when written (R01.6)",
     ]
+    chk.decided += ["components are only resolved into contours by util.decomposeCompositeGlyph; no other decomposing pen / component removal outside reviewed functions (R01.7, shared with C15)"]
     chk.not_decided += ["that drawn coordinates equal the source (fontTools pens)", "composition of nested transforms", "semantics of roundTolerance inside T2CharStringPen"]
     r011(prog, chk)
     r012(prog, chk, "R01.2")
@@ -32,6 +33,8 @@ def run(prog, chk):
     r014(prog, chk)
     r015(prog, chk)
     r016(prog, chk)
+    from .c15 import check_single_decomposer
+    check_single_decomposer(prog, chk, "R01.7")
 
 
 # ----------------------------------------------------------------------------- R01.1
